@@ -475,7 +475,12 @@ class Part(object):
 
     def _time_interpolator(self, quarter=False, inv=False, musical_beat=False):
         if len(self._points) < 2:
-            return lambda x: np.zeros(len(x))
+            # no extent: every position maps to zero and zero maps back to
+            # the only time point (scalars give 0-d arrays, like scipy)
+            t0 = self._points[0].t if len(self._points) == 1 else 0
+            if inv:
+                return lambda x: np.full(np.shape(x), t0, dtype=float)
+            return lambda x: np.zeros(np.shape(x))
 
         keypoints = defaultdict(lambda: [None, None])
         _ = keypoints[self.first_point.t]
